@@ -1075,7 +1075,15 @@ def _norm_what(w):
 
 
 def _norm_desc(d):
-    return re.sub(r"^(?:index|array|traits)::(index(?:_mut)?)\(", r"\1(", d)
+    d = re.sub(r"^(?:index|array|traits)::(index(?:_mut)?)\(", r"\1(", d)
+    # ((x + a) + b) is (x + (a+b)): an offset written in two steps reads like the same offset written in one
+    for _ in range(3):
+        d2 = re.sub(r"\(\((\w+) AddWithOverflow (\d+)\)\.0 AddWithOverflow (\d+)\)\.0",
+                    lambda m: "(%s AddWithOverflow %d).0" % (m.group(1), int(m.group(2)) + int(m.group(3))), d)
+        if d2 == d:
+            break
+        d = d2
+    return d
 
 
 def _short_what(w):
